@@ -51,6 +51,42 @@ HAND = {
 }
 
 
+def validate_pool_trace(events, path):
+    """None if TLC accepts the wp_* events as a behaviour of TraceWritePool.tla; ("violation"|"mismatch", text) otherwise"""
+    import re
+    ids = {}
+    n = 0
+    with open(path, "w") as f:
+        for e in events:
+            if not e["ev"].startswith("wp_"):
+                continue
+            o = {"ev": e["ev"]}
+            if "req" in e:
+                o["req"] = ids.setdefault(e["req"], len(ids) + 1)
+            for k in ("class", "stage"):
+                if k in e:
+                    o[k] = e[k]
+            f.write(json.dumps(o) + "\n"); n += 1
+    if n == 0:
+        return None
+    c = os.path.join(vlib.scratch(), "twp.cfg")
+    if not os.path.exists(c):
+        tmp = c + ".%d" % os.getpid()
+        open(tmp, "w").write("SPECIFICATION TraceSpec\nINVARIANTS C20_Exclusive C20_OneGuard\nPOSTCONDITION TraceAccepted\n")
+        os.replace(tmp, c)
+    r = vlib.run_tlc("TraceWritePool.tla", c, workers=1, timeout=900, dfs=True, heap="3g", env_extra={"TRACE": path}, dump_trace=False)
+    if r.violated:
+        return ("violation", "the recorded write-pool events violate %s of TraceWritePool.tla (more than one holder of the write connection / guard)" % r.violated)
+    m = re.search(r'"first unmatched event", (\d+)', r.output)
+    if m:
+        i = int(m.group(1))
+        evs = [json.loads(l) for l in open(path)]
+        return ("mismatch", "TLC rejects the recorded write-pool events at event %d (%s): not a behaviour of the single-writer protocol" % (i, json.dumps(evs[i - 1]) if 0 < i <= len(evs) else "?"))
+    if r.ok and r.distinct >= n:
+        return None
+    return ("mismatch", "TLC could not validate the write-pool events: %s" % ((r.error or "")[:200]))
+
+
 def analyse(events):
     """-> (failures, programs) from one recorded stress run"""
     fails = []
@@ -163,6 +199,7 @@ def run(tier):
     rounds = 12 if tier == "quick" else 25
     progs = set()
     nev = 0
+    accepted = 0
     for i in range(nruns):
         seed = vlib.seed() * 100 + i
         out = os.path.join(vlib.scratch(), "ps.%d.ndjson" % seed)
@@ -173,6 +210,17 @@ def run(tier):
         nev += len(events)
         fl, pr = analyse(events)
         progs |= pr
+        # the write-pool events as a behaviour of the single-writer protocol: validated by TLC (TraceWritePool.tla)
+        tv = validate_pool_trace(events, out + ".wp.ndjson")
+        accepted += 1 if tv is None else 0
+        if tv is not None:
+            keep = os.path.join(vlib.REPLAYS, "C20-stress-%d.ndjson" % seed)
+            os.makedirs(vlib.REPLAYS, exist_ok=True)
+            import shutil; shutil.copy(out, keep)
+            if tv[0] == "violation":
+                violations.append((tv[1], keep))
+            elif not fl and len(mismatch) < 3:
+                mismatch.append("seed %d: %s (%s)" % (seed, tv[1], keep))
         for t in fl[:2]:
             keep = os.path.join(vlib.REPLAYS, "C20-stress-%d.ndjson" % seed)
             os.makedirs(vlib.REPLAYS, exist_ok=True)
@@ -206,6 +254,7 @@ def run(tier):
         mismatch.append("no lock program could be extracted from the stress runs (hooks missing?)")
     cov["traces_validated_against_impl"] = nruns
     cov["events_validated"] = nev
+    cov["pool_traces_accepted_by_tlc"] = accepted
     cov["evaluations"] = nev
     cov["distinct_nontrivial"] = len(plist)
     cov["exhaustive"] = False
